@@ -773,6 +773,12 @@ class Channel(callbacks.Plugin):
             capability <capability> for all users in the channel. <channel> is
             only necessary if the message isn't sent in the channel itself.
             """
+            for c in capabilities:
+                # Refuse before anything is changed: the channel object below
+                # is the live one, and an assertion half-way through the loop
+                # would leave it changed in memory but not in channels.conf.
+                if not ircdb.isCapability(c):
+                    irc.errorInvalid(_('capability'), c, Raise=True)
             chan = ircdb.channels.getChannel(channel)
             for c in capabilities:
                 chan.addCapability(c)
@@ -789,6 +795,11 @@ class Channel(callbacks.Plugin):
             channel default capability will take precedence. <channel> is only
             necessary if the message isn't sent in the channel itself.
             """
+            for c in capabilities:
+                # As in set: refuse before anything is changed (a capability
+                # removed in memory only would be back after a reload).
+                if not ircdb.isCapability(c):
+                    irc.errorInvalid(_('capability'), c, Raise=True)
             chan = ircdb.channels.getChannel(channel)
             fail = []
             for c in capabilities:
